@@ -503,7 +503,7 @@ def one_run(check, seed, i, cfg):
                 from . import tracemon
                 obs_n += 1
                 f19 = () if os.environ.get("SIMKIT_RAW_REPLAY") else ms["meta"]["f19"]
-                mon = tracemon.make(("profile", "trace", "both")[obs_n % 3], ms["name"] + ".pyx", ms["meta"]["spans"], f19)
+                mon = tracemon.make(("profile", "trace", "both", "decline")[obs_n % 4], ms["name"] + ".pyx", ms["meta"]["spans"], f19)
             cap = None
             if mode == "refs":
                 gc.collect()
@@ -542,6 +542,13 @@ def one_run(check, seed, i, cfg):
                     P["known_F19_return_event_before_finally"] = P.get("known_F19_return_event_before_finally", 0) + 1
                 if problems:
                     v = {"klass": "trace-events:" + problems[0]["what"], "detail": {"mode": mon.mode, "problems": problems}, "observer_mode": mon.mode}
+                elif mon.mode == "decline":
+                    P["scopes_declined_by_the_tracer"] = P.get("scopes_declined_by_the_tracer", 0) + mon.declined_calls
+                    # an observer that declines scopes must not change what the program does
+                    ru = run_case(mod, fi, arg, plan, sm)
+                    if (ru["outcome"], ru["log"]) != (rs["outcome"], rs["log"]):
+                        v = {"klass": "trace-events:tracing-changes-behaviour", "observer_mode": "decline",
+                             "detail": {"mode": "decline", "traced": rs["outcome"], "untraced": ru["outcome"]}}
             if mode == "refs":
                 sm.PLAN.clear()
                 gc.collect()
@@ -635,17 +642,22 @@ def run_single(ms, fi, arg, plan, observer):
     if observer == "trace":
         from . import tracemon
         out = None
-        for mode in ("profile", "trace", "both"):
+        for mode in ("profile", "trace", "both", "decline"):
             f19 = () if os.environ.get("SIMKIT_RAW_REPLAY") else ms["meta"]["f19"]
             mon = tracemon.make(mode, ms["name"] + ".pyx", ms["meta"]["spans"], f19)
             mon.install()
             try:
-                run_case(mod, fi, arg, plan, sm)
+                rs = run_case(mod, fi, arg, plan, sm)
             finally:
                 problems = mon.finish()
             if problems:
                 out = {"klass": "trace-events:" + problems[0]["what"], "detail": {"mode": mode, "problems": problems}}
                 break
+            if mode == "decline":
+                ru = run_case(mod, fi, arg, plan, sm)
+                if (ru["outcome"], ru["log"]) != (rs["outcome"], rs["log"]):
+                    out = {"klass": "trace-events:tracing-changes-behaviour", "detail": {"mode": "decline", "traced": rs["outcome"], "untraced": ru["outcome"]}}
+                    break
         return out
     if observer == "refs":
         gc.collect()
